@@ -1,6 +1,6 @@
 // -----------------------------------------------------------------------------------------------
 
-#[derive(Clone, Debug, Default, PartialEq)]
+#[derive(Clone, Debug, Default, PartialEq, Eq, Hash)]
 pub struct PrefixedName<'a> {
     pub prefix: &'a str,
     pub local_part: &'a str,
@@ -15,7 +15,7 @@ impl<'a> From<(&'a str, &'a str)> for PrefixedName<'a> {
 
 // -----------------------------------------------------------------------------------------------
 
-#[derive(Clone, Debug, PartialEq)]
+#[derive(Clone, Debug, PartialEq, Eq, Hash)]
 pub enum QName<'a> {
     Prefixed(PrefixedName<'a>),
     Unprefixed(&'a str),
